@@ -116,7 +116,6 @@ def props_cron_tick(E, res):
     for s in rt.sends:
         P.append(tagged('C01', 'the only value leaving the market in the tick goes to the burnt-funds actor', b_and(s.to.proto == 0, s.to.key == 99, zv(s.method) == 0)))
     P.append(tagged('C01,C07', 'every amount slashed in the tick (timed-out proposals, terminated deals) is burnt: nothing is stranded', sent == total))
-    P.append(tagged('C01', 'at most one burn per tick', len(rt.sends) <= 1))
     ST, DPF, DSF = F()
     P.append(tagged('C05', 'the tick records the epoch it processed', fget(E, rt.state, ST['last_cron'], 'i64').v == rt.epoch))
     return P
